@@ -88,15 +88,14 @@ Qed.
 (* after its `-` symbol, iteration i of the loop and the hand-written block `{ .const index = i  b }` run the same
    computation up to the ghost log, provided binding `index` does not fail (a failure skips the body in the loop and
    not in the block) *)
-Theorem iteration_is_block fuel e lsc b li i c c' :
+Theorem iteration_is_block fuel (e : lexpr) (b : block) li i c c' :
   closed_value li i -> E c c' -> try_current_target_pc c' <> PcPanic ->
-  (forall d, (c0 <- get ;; add_symbol [t_index] (symbol_ c0 (Some (le_span e)) (SDNum i) TyConstant)) c = Err d c -> False) ->
   (forall ds d, (c0 <- get ;; add_symbol [t_index] (symbol_ c0 (Some (le_span e)) (SDNum i) TyConstant)) c <> Err ds d) ->
   out_rel ((c0 <- get ;; add_symbol [t_index] (symbol_ c0 (Some (le_span e)) (SDNum i) TyConstant) ;;;
             emit_tokens (emit_token (S fuel)) (blk_inner b)) c)
           (emit_tokens (emit_token (S fuel)) (TVarDef VConst t_index (le_span e) li :: blk_inner b) c').
 Proof.
-  intros CV HE P _ NoErr.
+  intros CV HE P NoErr.
   unfold emit_tokens at 2. cbn [emit_tokens_with]. cbn [emit_token emit_token_body].
   destruct (eval_closed li i c' CV P) as [ev Ev].
   unfold bind at 3. rewrite Ev. cbn [sval_to_sdata].
@@ -146,13 +145,13 @@ Proof.
     by (apply compose_lists; exact F).
   assert (L0 : SimM (emit_tokens (emit_token fuel) ts) (emit_tokens (emit_token fuel) ts')) by apply L.
   repeat split.
-  - intros sc lp rp. cbn [emit_token emit_token_body blk_inner]. apply sim_with_scope. exact L0.
+  - intros sc lp rp. cbn [emit_token emit_token_body blk_inner]. apply sim_with_scope2; [cbn; auto|exact L0].
   - intros id isp lp rp. cbn [emit_token emit_token_body blk_inner].
     apply sim_bind; [apply sim_current_target_pc|intros pc].
     apply sim_bind.
     + destruct pc; [|apply sim_ret]. apply sim_get_bind; intros c c' H. rewrite (symbol_core _ _ _ _ _ H).
       apply sim_bind; [apply sim_add_symbol|intro; apply sim_ret].
-    + intro. apply sim_with_scope. exact L0.
+    + intro. apply sim_with_scope2; [cbn; auto|exact L0].
   - intros v lp rp e. cbn [emit_token emit_token_body blk_inner].
     apply sim_bind; [apply sim_eval_i64|intros x]. destruct x; [|apply sim_ret].
     destruct (negb (z =? 0)); [exact L0|]. destruct e; [apply sim_emit_tokens; apply sim_emit_token|apply sim_ret].
